@@ -495,7 +495,7 @@ Qed.
 Lemma check_constraints_not_internal : forall lc el l x, check_constraints lc el l = Err x -> x <> EInternal.
 Proof.
   intros lc el l x. unfold check_constraints.
-  destruct (negb (Nat.eqb (e_cls el) (l_cls lc))); [intro H; inversion H; discriminate|].
+  destruct (negb (cls_ok lc el)); [intro H; inversion H; discriminate|].
   destruct (match l_sem lc with Some a => match e_sem el with Some b => negb (Nat.eqb a b) | None => false end | None => false end);
     [intro H; inversion H; discriminate|].
   destruct ((l_cls lc <? 2) && negb (Nat.eqb (e_vt el) (l_vt lc))); [intro H; inversion H; discriminate|].
